@@ -1,15 +1,30 @@
-// C04 — Var: explicit-state BFS over histories of construction / assignment (incl. to own descendants) / indexing with
-// auto-creation / append / remove / extend / clone on three real Var slots against a shared-node JSON tree model.
+// C04 — Var.
+//  "var"  : explicit-state BFS over histories of construction / assignment (incl. to own descendants and from own siblings) /
+//           typed assignment / indexing with auto-creation / append / remove / extend / clone on three real Var slots against a
+//           shared-node JSON tree model.
+//  "ctor" : every constructor x boundary values, read back through every accessor / conversion, copied, cloned, assigned.
+//  "eq", "eqt": full equality matrix over a value set with numerically equal cross-type numbers, both booleans, both string
+//           representations and nested containers; typed == overloads.
+//  "tas"  : prior state x typed assignment x typed assignment (every operator= overload, strings on both sides of the 7/8 boundary,
+//           targets that are roots, shared roots, elements and properties).
+//  "cln"  : clone() of every value, every node of the original (resp. of the clone) mutated afterwards.
 #include <asl/Var.h>
 #include <memory>
 #include <map>
 #include <set>
+#include <limits.h>
+#include <math.h>
 #include "vf.h"
 #include "aslx.h"
 using namespace asl;
 using vf::fmt;
 
 static int W_STR_HEAP_SHORT, W_TYPECHANGE, W_SAMETYPE_FAST, W_OWN_DESC, W_AUTOVIV, W_AUTORESIZE, W_SHARED_MUT, W_CLONE, W_STR_INLINE_HEAP, W_EXTEND, W_EQ_TRUE, W_EQ_FALSE, W_SCALAR_OVER_SHARED;
+// added with the coverage extension (review C04)
+static int W_FP_STR, W_FP_ARR, W_FP_OBJ, W_OWN_SAME, W_OWN_CHANGE, W_CLONE_MUT, W_EQ_XREP, W_ARR_REALLOC, W_OBJ_REALLOC, W_PRED_ARR, W_PRED_OBJ, W_PRED_ALIAS,
+	W_TYPED_OVER_HEAPSTR, W_TYPED_OVER_CONTAINER, W_CSTR_HEAP_ARM, W_CSTR_GROW, W_HEAP_EMPTY, W_ALIAS_NOCREATE, W_ALIAS_CREATE_OK, W_ALIAS_APPEND_FULL, W_ALIAS_EXTEND, W_ALIAS_EXTEND_OVERWRITES_SRC,
+	W_INDEX_HOLES, W_OBJ_4KEYS, W_OBJ_INSERT_FRONT, W_NEST_OWN, W_CONV_NUM, W_CONV_NUMSTR;
+static int C_CTOR, C_EQ, C_EQT, C_TAS, C_CLN, W_EQ_NUM_XTYPE, W_EQ_BOOLS, W_EQ_CONT_TRUE, W_EQ_CONT_FALSE, W_TAS_SS_EDGE, W_TAS_ELEM_TARGET, W_TAS_SHARED_TARGET, W_CTOR_BIG, W_CTOR_STR_EDGE;
 
 // ---------------------------------------------------------------- model
 struct MV;
@@ -27,6 +42,8 @@ struct MV {
 	static MV str(const std::string& x) { MV v; v.t = STR; v.s = x; return v; }
 	static MV arr() { MV v; v.t = ARR; v.a = std::make_shared<std::vector<MV> >(); return v; }
 	static MV obj() { MV v; v.t = OBJ; v.o = std::make_shared<std::map<std::string, MV> >(); return v; }
+	MV& operator<<(const MV& x) { a->push_back(x); return *this; }
+	MV& operator()(const std::string& k, const MV& x) { (*o)[k] = x; return *this; }
 	bool isnum() const { return t == INT || t == NUM || t == FLT; }
 	double numval() const { return t == INT ? i : d; }
 };
@@ -67,57 +84,109 @@ static int msize(const MV& v) {
 	if (v.t == MV::OBJ) for (std::map<std::string, MV>::iterator it = v.o->begin(); it != v.o->end(); ++it) n += msize(it->second);
 	return n;
 }
+static bool alldigits(const std::string& s) { if (s.empty() || s.size() > 9) return false; for (size_t i = 0; i < s.size(); i++) if (s[i] < '0' || s[i] > '9') return false; return true; }
+static bool integral(double d) { return d == floor(d); }
 
 // ---------------------------------------------------------------- comparison impl vs model
-static bool same(const Var& v, const MV& m, std::string& err, const std::string& path, int depth = 0) {
+// Only value-preserving readings are demanded: a number read in another numeric type that holds it exactly, its text read back as a
+// number, a string through every string accessor, a string of decimal digits read as that number, truth value of numbers and strings
+// ("similar to JS conversion", Var.h). Every other conversion is only called (memory oracle).
+// ext = false: only the accessors of the value's own type (used for slots the last operation did not assign or index)
+static bool same(const Var& v, const MV& m, std::string& err, const std::string& path, int depth = 0, bool ext = true) {
 	if (depth > 12) { err = path + ": nesting deeper than the reference"; return false; }
+	const Var& cv = v;
 	switch (m.t) {
 	case MV::NONE: if (v.type() != Var::NONE || v.ok()) { err = path + ": expected an unset Var"; return false; } return true;
-	case MV::NUL: if (v.type() != Var::NUL || !v.is(Var::NUL)) { err = path + ": expected null"; return false; } return true;
-	case MV::BOOL: if (v.type() != Var::BOOL || (bool)v != m.b || !(v == m.b)) { err = path + fmt(": expected bool %d", (int)m.b); return false; } return true;
-	case MV::INT: if (v.type() != Var::INT || (int)v != m.i || (double)v != m.i || !v.is(Var::NUMBER) || !(v == m.i)) { err = path + fmt(": expected int %d, type %d value %d", m.i, (int)v.type(), (int)v); return false; } return true;
-	case MV::NUM: if (v.type() != Var::NUMBER || (double)v != m.d || !(v == m.d)) { err = path + fmt(": expected number %g, type %d value %g", m.d, (int)v.type(), (double)v); return false; } return true;
-	case MV::FLT: if (v.type() != Var::FLOAT || (float)v != (float)m.d || !v.is(Var::NUMBER)) { err = path + fmt(": expected float %g, type %d", m.d, (int)v.type()); return false; } return true;
+	case MV::NUL: if (v.type() != Var::NUL || !v.is(Var::NUL)) { err = path + ": expected null"; return false; } (void)(bool)v; (void)*v; (void)cv[0].type(); (void)cv["a"].type(); return true;
+	case MV::BOOL: if (v.type() != Var::BOOL || (bool)v != m.b || !(v == m.b) || v == !m.b || v != m.b) { err = path + fmt(": expected bool %d", (int)m.b); return false; } (void)(int)v; (void)cv[0].type(); return true;
+	case MV::INT: {
+		if (v.type() != Var::INT || (int)v != m.i || (double)v != m.i || !v.is(Var::NUMBER) || !(v == m.i)) { err = path + fmt(": expected int %d, type %d value %d", m.i, (int)v.type(), (int)v); return false; }
+		if (depth > 1 || !ext) return true; // the remaining readings depend on the leaf alone: every leaf kind also occurs as a root or a direct child
+		vf::add(W_CONV_NUM);
+		if ((Long)v != (Long)m.i || (m.i >= 0 && ((unsigned)v != (unsigned)m.i || (ULong)v != (ULong)m.i)) || (bool)v != (m.i != 0) || !(v == (double)m.i) || v != (double)m.i) { err = path + fmt(": int %d read back differently as Long/unsigned/ULong/bool/==double", m.i); return false; }
+		if ((double)(float)m.i == (double)m.i && ((float)v != (float)m.i || !(v == (float)m.i))) { err = path + fmt(": int %d read back differently as float", m.i); return false; }
+		String t = v.toString(); String u = v;
+		if (vfx::S(t) != fmt("%d", m.i) || vfx::S(u) != vfx::S(t)) { err = path + fmt(": int %d as text '%s'", m.i, *t); return false; }
+		(void)cv[0].type(); (void)cv["a"].type();
+		return true;
+	}
+	case MV::NUM: {
+		if (v.type() != Var::NUMBER || (double)v != m.d || !(v == m.d) || v != m.d || !v.is(Var::NUMBER)) { err = path + fmt(": expected number %.17g, type %d value %.17g", m.d, (int)v.type(), (double)v); return false; }
+		if (depth > 1 || !ext) return true;
+		vf::add(W_CONV_NUM);
+		if ((float)v != (float)m.d || (bool)v != (m.d != 0)) { err = path + fmt(": number %g read back differently as float/bool", m.d); return false; }
+		if (integral(m.d) && fabs(m.d) <= 9007199254740992.0 && (Long)v != (Long)m.d) { err = path + fmt(": number %.17g read back as Long %lld", m.d, (long long)(Long)v); return false; }
+		if (integral(m.d) && m.d >= 0 && m.d <= 9007199254740992.0 && (ULong)v != (ULong)m.d) { err = path + fmt(": number %.17g read back differently as ULong", m.d); return false; }
+		if (integral(m.d) && m.d >= INT_MIN && m.d <= INT_MAX && ((int)v != (int)m.d || !(v == (int)m.d))) { err = path + fmt(": number %.17g read back differently as int", m.d); return false; }
+		if (integral(m.d) && m.d >= 0 && m.d <= 4294967295.0 && (unsigned)v != (unsigned)m.d) { err = path + fmt(": number %.17g read back differently as unsigned", m.d); return false; }
+		if ((double)(float)m.d == m.d && !(v == (float)m.d)) { err = path + fmt(": number %g == float", m.d); return false; }
+		String t = v.toString(); String u = v;
+		if (atof(fmt("%.15g", m.d).c_str()) == m.d && (atof(*t) != m.d || vfx::S(u) != vfx::S(t))) { err = path + fmt(": number %.17g as text '%s'", m.d, *t); return false; }
+		return true;
+	}
+	case MV::FLT: {
+		if (v.type() != Var::FLOAT || (float)v != (float)m.d || !v.is(Var::NUMBER) || (double)v != (double)(float)m.d || !(v == (float)m.d) || v != (float)m.d) { err = path + fmt(": expected float %g, type %d", m.d, (int)v.type()); return false; }
+		if (depth > 1 || !ext) return true;
+		vf::add(W_CONV_NUM);
+		if ((bool)v != (m.d != 0) || !(v == (double)(float)m.d)) { err = path + fmt(": float %g read back differently as bool/==double", m.d); return false; }
+		if (integral(m.d) && fabs(m.d) < 16777216.0 && ((int)v != (int)m.d || (Long)v != (Long)m.d || !(v == (int)m.d))) { err = path + fmt(": float %g read back differently as int/Long", m.d); return false; }
+		String t = v.toString();
+		if ((float)atof(fmt("%.7g", m.d).c_str()) == (float)m.d && (float)atof(*t) != (float)m.d) { err = path + fmt(": float %g as text '%s'", m.d, *t); return false; }
+		return true;
+	}
 	case MV::STR: {
 		if (v.type() != Var::STRING || !v.is(Var::STRING)) { err = path + fmt(": expected string, type %d", (int)v.type()); return false; }
 		String s = v;
 		if (vfx::S(s) != m.s || v.length() != (int)m.s.size() || strcmp(*v, m.s.c_str()) != 0 || !(v == m.s.c_str()) || vfx::S(v.toString()) != m.s) { err = path + ": string value '" + vfx::S(s) + "', reference '" + m.s + "'"; return false; }
+		if (v._type == Var::STRING && m.s.empty()) vf::add(W_HEAP_EMPTY);
+		if ((bool)v != !m.s.empty()) { err = path + fmt(": string '%s' (%s representation) converts to bool %d", m.s.c_str(), v._type == Var::STRING ? "heap" : "inline", (int)(bool)v); return false; }
+		if (depth > 1 || !ext) return true;
+		if (!(v == vfx::A(m.s)) || v != m.s.c_str() || v != vfx::A(m.s) || v == (m.s + "x").c_str() || v == vfx::A(m.s + "x") || vfx::S(v.string()) != m.s) { err = path + ": string '" + m.s + "' compares wrongly with a String / const char*"; return false; }
+		if (alldigits(m.s)) { vf::add(W_CONV_NUMSTR); if ((int)v != atoi(m.s.c_str()) || (double)v != atof(m.s.c_str()) || (Long)v != atoi(m.s.c_str()) || (unsigned)v != (unsigned)atoi(m.s.c_str()) || (float)v != (float)atof(m.s.c_str())) { err = path + ": digit string '" + m.s + "' read back as another number"; return false; } }
+		else { (void)(int)v; (void)(double)v; (void)(Long)v; }
+		(void)cv[0].type(); (void)cv["a"].type();
 		return true;
 	}
 	case MV::ARR: {
 		if (v.type() != Var::ARRAY || !v.is(Var::ARRAY)) { err = path + fmt(": expected array, type %d", (int)v.type()); return false; }
 		if (v.length() != (int)m.a->size()) { err = path + fmt(": array length %d, reference %d", v.length(), (int)m.a->size()); return false; }
-		const Var& cv = v;
-		for (int i = 0; i < v.length(); i++) if (!same(cv[i], (*m.a)[i], err, path + fmt("[%d]", i), depth + 1)) return false;
+		for (int i = 0; i < v.length(); i++) if (!same(cv[i], (*m.a)[i], err, path + fmt("[%d]", i), depth + 1, ext)) return false;
+		if (depth == 0 && ext && (v.array().length() != (int)m.a->size() || v.object().length() != 0)) { err = path + ": array()/object() of an array"; return false; }
+		(void)(bool)v; (void)cv["a"].type();
 		return true;
 	}
 	case MV::OBJ: {
 		if (v.type() != Var::OBJ || !v.is(Var::OBJ)) { err = path + fmt(": expected object, type %d", (int)v.type()); return false; }
 		if (v.length() != (int)m.o->size()) { err = path + fmt(": object has %d properties, reference %d", v.length(), (int)m.o->size()); return false; }
-		const Var& cv = v;
 		for (std::map<std::string, MV>::iterator it = m.o->begin(); it != m.o->end(); ++it) {
 			if (!v.has(it->first.c_str())) { err = path + ": property '" + it->first + "' missing"; return false; }
-			if (!same(cv[it->first.c_str()], it->second, err, path + "." + it->first, depth + 1)) return false;
+			if (!same(cv[it->first.c_str()], it->second, err, path + "." + it->first, depth + 1, ext)) return false;
 		}
-		int n = 0; std::map<std::string, MV>::iterator it = m.o->begin();
-		foreach2 (String & k, const Var& x, cv) { (void)x; if (it == m.o->end() || vfx::S(k) != it->first) { err = path + ": property enumeration differs from the reference"; return false; } ++it; n++; }
+		// enumeration: every key of the reference exactly once (the order is not part of the statement)
+		int n = 0; std::vector<std::string> seen; seen.reserve(m.o->size());
+		foreach2 (String & k, const Var& x, cv) { (void)x; if (!m.o->count(vfx::S(k)) || std::find(seen.begin(), seen.end(), vfx::S(k)) != seen.end() || (seen.push_back(vfx::S(k)), false)) { err = path + ": property enumeration yields '" + vfx::S(k) + "' (not in the reference, or twice)"; return false; } n++; }
 		if (n != (int)m.o->size()) { err = path + ": property enumeration count"; return false; }
+		if (depth == 0 && ext && (v.object().length() != (int)m.o->size() || v.array().length() != 0 || v.has("no-such-key"))) { err = path + ": object()/array()/has() of an object"; return false; }
+		(void)(bool)v; (void)cv[0].type();
 		return true;
 	}
 	}
 	return false;
 }
 
-// ---------------------------------------------------------------- system
+// ---------------------------------------------------------------- system (BFS)
 struct VarSys {
-	enum Kind { GEN, ASSIGN, OWN_ELEM, OWN_PROP, OWN_DEEP, SET_ELEM, SET_PROP, SET_ELEM_SCALAR, SET_PROP_SCALAR, APPEND, APPEND_SCALAR, REMOVEAT, REMOVE, CLEAR, EXTEND, CLONE, TYPED, SELF };
+	enum Kind { GEN, ASSIGN, OWN_ELEM, OWN_PROP, OWN_DEEP, SET_ELEM, SET_PROP, SET_ELEM_SCALAR, SET_PROP_SCALAR, APPEND, APPEND_SCALAR, REMOVEAT, REMOVE, CLEAR, EXTEND, CLONE, TYPED, SELF,
+		TYPED2, ALIAS_ELEM, ALIAS_PROP, ALIAS_APPEND, ALIAS_EXTEND, OWN_DEEP_PROP, NEST_OWN };
 	struct O { Kind k; int i, j, a; };
-	enum { NSLOT = 3, NGEN = 14 };
+	enum { NSLOT = 3, NGEN = 14, NGEN2 = 15, NTYPED2 = 10 };
 	std::vector<O> ops;
 	Var* v[NSLOT]; MV m[NSLOT];
+	struct CloneRec { int slot; MV cloneRoot, orig; };
+	std::vector<CloneRec> clones;
 	VarSys() {
 		for (int i = 0; i < NSLOT; i++) v[i] = 0;
-		for (int i = 0; i < NSLOT; i++) {
+		for (int i = 0; i < NSLOT; i++) { // the first 147 ops keep their numbers (case strings of earlier evidence stay replayable)
 			for (int g = 0; g < NGEN; g++) add(GEN, i, 0, g);
 			for (int j = 0; j < NSLOT; j++) if (j != i) { add(ASSIGN, i, j); add(SET_ELEM, i, j, 0); add(SET_ELEM, i, j, 1); add(SET_PROP, i, j, 0); add(SET_PROP, i, j, 1); add(APPEND, i, j); add(EXTEND, i, j); add(CLONE, i, j); }
 			add(OWN_ELEM, i, 0, 0); add(OWN_ELEM, i, 0, 1); add(OWN_PROP, i); add(OWN_DEEP, i);
@@ -125,11 +194,21 @@ struct VarSys {
 			add(APPEND_SCALAR, i); add(REMOVEAT, i); add(REMOVE, i); add(CLEAR, i);
 			add(TYPED, i, 0, 0); add(TYPED, i, 0, 1); add(TYPED, i, 0, 2); add(TYPED, i, 0, 3); add(TYPED, i, 0, 4); add(TYPED, i, 0, 5); add(SELF, i);
 		}
+		for (int i = 0; i < NSLOT; i++) { // extension
+			for (int g = NGEN; g < NGEN2; g++) add(GEN, i, 0, g);
+			for (int t = 0; t < NTYPED2; t++) add(TYPED2, i, 0, t);
+			add(ALIAS_ELEM, i, 0, 0); add(ALIAS_ELEM, i, 0, 1);
+			for (int p = 0; p < 4; p++) add(ALIAS_PROP, i, 0, p);
+			add(ALIAS_APPEND, i); add(ALIAS_EXTEND, i, 0, 0); add(ALIAS_EXTEND, i, 0, 1);
+			add(SET_ELEM_SCALAR, i, 0, 2);
+			add(SET_PROP_SCALAR, i, 0, 2);
+			add(OWN_PROP, i, 0, 1); add(OWN_DEEP_PROP, i); add(NEST_OWN, i);
+		}
 	}
 	void add(Kind k, int i, int j = 0, int a = 0) { O o = { k, i, j, a }; ops.push_back(o); }
 	int nops() { return (int)ops.size(); }
-	void reset() { for (int i = 0; i < NSLOT; i++) { delete v[i]; v[i] = 0; m[i] = MV(); } for (int i = 0; i < NSLOT; i++) v[i] = new Var(); }
-	static const char* genName(int g) { static const char* n[] = { "null", "true", "1", "1.5", "2.5f", "\"s\"", "\"1234567\"", "\"12345678\"", "[]", "[1]", "[[1],2]", "{}", "{a:1}", "{a:[1]}" }; return n[g]; }
+	void reset() { clones.clear(); for (int i = 0; i < NSLOT; i++) { delete v[i]; v[i] = 0; m[i] = MV(); } for (int i = 0; i < NSLOT; i++) v[i] = new Var(); }
+	static const char* genName(int g) { static const char* n[] = { "null", "true", "1", "1.5", "2.5f", "\"s\"", "\"1234567\"", "\"12345678\"", "[]", "[1]", "[[1],2]", "{}", "{a:1}", "{a:[1]}", "{b:1,c:2,d:3}" }; return n[g]; }
 	static Var genVar(int g) {
 		switch (g) {
 		case 0: return Var(Var::NUL); case 1: return Var(true); case 2: return Var(1); case 3: return Var(1.5); case 4: return Var(2.5f);
@@ -137,7 +216,8 @@ struct VarSys {
 		case 8: return Var(Var::ARRAY); case 9: { Var a(Var::ARRAY); a << 1; return a; }
 		case 10: { Var in(Var::ARRAY); in << 1; Var a(Var::ARRAY); a << in << 2; return a; }
 		case 11: return Var(Var::OBJ); case 12: { Var o(Var::OBJ); o["a"] = 1; return o; }
-		default: { Var in(Var::ARRAY); in << 1; Var o(Var::OBJ); o["a"] = in; return o; }
+		case 13: { Var in(Var::ARRAY); in << 1; Var o(Var::OBJ); o["a"] = in; return o; }
+		default: { Var o(Var::OBJ); o["b"] = 1; o["c"] = 2; o["d"] = 3; return o; } // a dictionary filled to its initial capacity
 		}
 	}
 	static MV genModel(int g) {
@@ -147,25 +227,30 @@ struct VarSys {
 		case 8: return MV::arr(); case 9: { MV a = MV::arr(); a.a->push_back(MV::integer(1)); return a; }
 		case 10: { MV in = MV::arr(); in.a->push_back(MV::integer(1)); MV a = MV::arr(); a.a->push_back(in); a.a->push_back(MV::integer(2)); return a; }
 		case 11: return MV::obj(); case 12: { MV o = MV::obj(); (*o.o)["a"] = MV::integer(1); return o; }
-		default: { MV in = MV::arr(); in.a->push_back(MV::integer(1)); MV o = MV::obj(); (*o.o)["a"] = in; return o; }
+		case 13: { MV in = MV::arr(); in.a->push_back(MV::integer(1)); MV o = MV::obj(); (*o.o)["a"] = in; return o; }
+		default: { MV o = MV::obj(); (*o.o)["b"] = MV::integer(1); (*o.o)["c"] = MV::integer(2); (*o.o)["d"] = MV::integer(3); return o; }
 		}
 	}
-	static const char* key(int a) { return a == 0 ? "a" : "b"; }
+	static const char* key(int a) { return a == 0 ? "a" : a == 1 ? "b" : "c"; }
+	static const char* apDst(int p) { static const char* d[] = { "a", "b", "c", "c" }; return d[p]; }
+	static const char* apSrc(int p) { static const char* s[] = { "b", "a", "a", "b" }; return s[p]; }
+	static const char* typed2Name(int t) { static const char* n[] = { "true (bool)", "2.5f (float)", "(Long)4", "1u (unsigned)", "\"12345678\" (const char*)", "\"\" (const char*)", "String(\"1234567\")", "Var::NUL (Type)", "Array<int>{1}", "Dic<int>{a:1}" }; return n[t]; }
 	bool small() { int n = 0; for (int i = 0; i < NSLOT; i++) n += msize(m[i]); return n < 40; }
+	static bool hasProp(const MV& x, const char* k) { return x.t == MV::OBJ && x.o->count(k) && (*x.o)[k].t != MV::NONE; }
 	bool enabled(int op) {
 		const O& o = ops[op];
 		const MV& x = m[o.i];
-		for (int q = 0; q < o.i; q++) if (m[q].t == MV::NONE && (o.k == GEN || o.k == TYPED || o.k == CLONE || o.k == ASSIGN) && x.t == MV::NONE) return false; // fill slots in order (symmetry)
+		for (int q = 0; q < o.i; q++) if (m[q].t == MV::NONE && (o.k == GEN || o.k == TYPED || o.k == TYPED2 || o.k == CLONE || o.k == ASSIGN) && x.t == MV::NONE) return false; // fill slots in order (symmetry)
 		switch (o.k) {
-		case GEN: return true;
+		case GEN: return o.a < NGEN || o.i == 0; // the added generator is offered on slot 0 only (other slots obtain it by assignment)
 		case ASSIGN: return m[o.j].t != MV::NONE && !reaches(m[o.j], 0);
 		case OWN_ELEM: return x.t == MV::ARR && (int)x.a->size() > o.a && (*x.a)[o.a].t != MV::NONE;
-		case OWN_PROP: return x.t == MV::OBJ && x.o->count("a") && (*x.o)["a"].t != MV::NONE;
+		case OWN_PROP: return hasProp(x, key(o.a));
 		case OWN_DEEP: return x.t == MV::ARR && x.a->size() >= 1 && (*x.a)[0].t == MV::ARR && (*x.a)[0].a->size() >= 1 && (*(*x.a)[0].a)[0].t != MV::NONE;
 		case SET_ELEM: { if (!(x.t == MV::ARR || (x.t == MV::NONE && o.a == 0)) || m[o.j].t == MV::NONE || !small()) return false; if (x.t == MV::ARR && reaches(m[o.j], cid(x))) return false; int idx = o.a == 0 ? 0 : (int)x.a->size(); return x.t == MV::NONE || idx <= (int)x.a->size(); }
 		case SET_PROP: { if (!(x.t == MV::OBJ || x.t == MV::NONE) || m[o.j].t == MV::NONE || !small()) return false; return !(x.t == MV::OBJ && reaches(m[o.j], cid(x))); }
-		case SET_ELEM_SCALAR: return (x.t == MV::ARR || (x.t == MV::NONE && o.a == 0)) && small();
-		case SET_PROP_SCALAR: return (x.t == MV::OBJ || x.t == MV::NONE) && small();
+		case SET_ELEM_SCALAR: return (x.t == MV::ARR || (x.t == MV::NONE && o.a != 1)) && small() && (o.a != 2 || (o.i == 0 && (x.t == MV::NONE || x.a->size() <= 1))); // n+2: slot 0 only, from unset, [] or [x] (inside / across the initial capacity)
+		case SET_PROP_SCALAR: return (x.t == MV::OBJ || x.t == MV::NONE) && small() && (o.a != 2 || o.i == 0); // key "c": slot 0 only
 		case APPEND: return (x.t == MV::ARR || x.t == MV::NONE) && m[o.j].t != MV::NONE && small() && !(x.t == MV::ARR && reaches(m[o.j], cid(x)));
 		case APPEND_SCALAR: return (x.t == MV::ARR || x.t == MV::NONE) && small();
 		case REMOVEAT: return x.t == MV::ARR && x.a->size() >= 1;
@@ -174,89 +259,182 @@ struct VarSys {
 		case EXTEND: { if (!(x.t == MV::OBJ || x.t == MV::NONE) || m[o.j].t != MV::OBJ || !small()) return false; if (x.t == MV::OBJ) { if (cid(x) == cid(m[o.j])) return false; for (std::map<std::string, MV>::iterator it = m[o.j].o->begin(); it != m[o.j].o->end(); ++it) if (reaches(it->second, cid(x))) return false; } return true; }
 		case CLONE: return m[o.j].t != MV::NONE;
 		case TYPED: return true;
+		case TYPED2: return (o.a != 2 && o.a != 5) || o.i == 0; // the two assignments that introduce a new leaf value are offered on slot 0 only
 		case SELF: return x.t != MV::NONE;
+		// own siblings as the source (no cycle can arise: a child never reaches its parent)
+		case ALIAS_ELEM: return x.t == MV::ARR && (int)x.a->size() >= (o.a == 0 ? 1 : 2) && (*x.a)[o.a == 0 ? 0 : x.a->size() - 1].t != MV::NONE && small();
+		case ALIAS_PROP: return hasProp(x, apSrc(o.a)) && small();
+		case ALIAS_APPEND: return x.t == MV::ARR && x.a->size() >= 1 && (*x.a)[0].t != MV::NONE && small();
+		case ALIAS_EXTEND: return hasProp(x, key(o.a)) && (*x.o)[key(o.a)].t == MV::OBJ && small();
+		case OWN_DEEP_PROP: return hasProp(x, "a") && (*x.o)["a"].t == MV::ARR && (*x.o)["a"].a->size() >= 1 && (*(*x.o)["a"].a)[0].t != MV::NONE;
+		case NEST_OWN: return x.t == MV::ARR && x.a->size() >= 1 && (*x.a)[0].t == MV::ARR && (*x.a)[0].a->size() >= 1 && (*(*x.a)[0].a)[0].t != MV::NONE;
 		}
 		return false;
 	}
-	// shared-container growth (same root cause as C01 grow_while_shared): container at capacity, referenced by >= 2 Vars, op adds an entry
+	// index written by SET_ELEM / SET_ELEM_SCALAR in the current model state
+	int elemIndex(const O& o) { const MV& x = m[o.i]; int n = x.t == MV::ARR ? (int)x.a->size() : 0; return o.a == 0 ? 0 : o.a == 1 ? n : n + 2; }
+	// Predicted classified defects.
+	//  grow_while_shared: container at capacity, referenced by >= 2 Vars, op adds entries (same root cause as C01 grow_while_shared).
+	//  autocreate_invalidates_source: `x[k] = x[j]` where indexing the target creates it and thereby moves the storage (reallocation of the
+	//    block, or shift of the sorted property array at or before the source) that holds the source the right operand refers to.
 	const char* predict(int op) {
 		const O& o = ops[op];
 		Var& x = *v[o.i];
-		int grow = 0;
+		int grow = 0; bool alias = false;
 		switch (o.k) {
-		case SET_ELEM: case SET_ELEM_SCALAR: if (x._type == Var::ARRAY && (o.a == 1 || x._a->length() == 0)) grow = 1; break;
-		case APPEND: case APPEND_SCALAR: if (x._type == Var::ARRAY) grow = 1; break;
+		case SET_ELEM: case SET_ELEM_SCALAR: if (x._type == Var::ARRAY) { int idx = elemIndex(o); if (idx >= x._a->length()) grow = idx + 1 - x._a->length(); } break;
+		case APPEND: case APPEND_SCALAR: case ALIAS_APPEND: if (x._type == Var::ARRAY) grow = 1; break;
 		case SET_PROP: case SET_PROP_SCALAR: if (x._type == Var::OBJ && !x.has(key(o.a))) grow = 1; break;
 		case EXTEND: if (x._type == Var::OBJ) { grow = 0; for (std::map<std::string, MV>::iterator it = m[o.j].o->begin(); it != m[o.j].o->end(); ++it) if (it->second.t != MV::NONE && !m[o.i].o->count(it->first)) grow++; } break;
+		case ALIAS_EXTEND: { const MV& src = (*m[o.i].o)[key(o.a)]; for (std::map<std::string, MV>::iterator it = src.o->begin(); it != src.o->end(); ++it) if (it->second.t != MV::NONE && !m[o.i].o->count(it->first)) grow++; break; }
+		case ALIAS_ELEM: if (o.a == 0) { grow = 1; alias = true; } break;
+		case ALIAS_PROP: if (!x.has(apDst(o.a))) { grow = 1; alias = true; } break;
 		default: break;
 		}
 		if (!grow) return 0;
-		if (x._type == Var::ARRAY && x._a->rc() >= 2 && x._a->length() + grow > x._a->cap()) return "grow_while_shared";
-		if (x._type == Var::OBJ && x._o->kv().rc() >= 2 && x._o->length() + grow > x._o->kv().cap()) return "grow_while_shared";
+		if (x._type == Var::ARRAY && x._a->rc() >= 2 && x._a->length() + grow > x._a->cap()) { vf::add(W_PRED_ARR); return "grow_while_shared"; }
+		if (x._type == Var::OBJ && x._o->kv().rc() >= 2 && x._o->length() + grow > x._o->kv().cap()) { vf::add(W_PRED_OBJ); return "grow_while_shared"; }
+		if (alias) {
+			bool moves = x._type == Var::ARRAY ? x._a->length() + 1 > x._a->cap() : (x._o->length() + 1 > x._o->kv().cap() || strcmp(apDst(o.a), apSrc(o.a)) < 0);
+			if (moves) { vf::add(W_PRED_ALIAS); return "autocreate_invalidates_source"; }
+		}
 		return 0;
 	}
 	std::string opname(int op) {
 		const O& o = ops[op];
 		switch (o.k) {
 		case GEN: return fmt("v%d = %s", o.i, genName(o.a)); case ASSIGN: return fmt("v%d = v%d", o.i, o.j);
-		case OWN_ELEM: return fmt("v%d = v%d[%d]", o.i, o.i, o.a); case OWN_PROP: return fmt("v%d = v%d[\"a\"]", o.i, o.i); case OWN_DEEP: return fmt("v%d = v%d[0][0]", o.i, o.i);
+		case OWN_ELEM: return fmt("v%d = v%d[%d]", o.i, o.i, o.a); case OWN_PROP: return fmt("v%d = v%d[\"%s\"]", o.i, o.i, key(o.a)); case OWN_DEEP: return fmt("v%d = v%d[0][0]", o.i, o.i);
 		case SET_ELEM: return fmt("v%d[%s] = v%d", o.i, o.a == 0 ? "0" : "n", o.j); case SET_PROP: return fmt("v%d[\"%s\"] = v%d", o.i, key(o.a), o.j);
-		case SET_ELEM_SCALAR: return fmt("v%d[%s] = 7", o.i, o.a == 0 ? "0" : "n"); case SET_PROP_SCALAR: return fmt("v%d[\"%s\"] = \"p\"", o.i, key(o.a));
+		case SET_ELEM_SCALAR: return fmt("v%d[%s] = 7", o.i, o.a == 0 ? "0" : o.a == 1 ? "n" : "n+2"); case SET_PROP_SCALAR: return fmt("v%d[\"%s\"] = \"p\"", o.i, key(o.a));
 		case APPEND: return fmt("v%d << v%d", o.i, o.j); case APPEND_SCALAR: return fmt("v%d << 3", o.i);
 		case REMOVEAT: return fmt("v%d.removeAt(0)", o.i); case REMOVE: return fmt("v%d.remove(\"a\")", o.i); case CLEAR: return fmt("v%d.clear()", o.i);
 		case EXTEND: return fmt("v%d.extend(v%d)", o.i, o.j); case CLONE: return fmt("v%d = v%d.clone()", o.i, o.j);
 		case TYPED: return fmt("v%d = %s", o.i, o.a == 0 ? "5 (int)" : o.a == 1 ? "\"t\" (const char*)" : o.a == 2 ? "String(\"a-long-string\")" : o.a == 3 ? "0.25 (double)" : o.a == 4 ? "\"1234567\" (const char*)" : "String(\"12345678\")");
 		case SELF: return fmt("v%d = v%d", o.i, o.i);
+		case TYPED2: return fmt("v%d = %s", o.i, typed2Name(o.a));
+		case ALIAS_ELEM: return o.a == 0 ? fmt("v%d[n] = v%d[0]", o.i, o.i) : fmt("v%d[0] = v%d[n-1]", o.i, o.i);
+		case ALIAS_PROP: return fmt("v%d[\"%s\"] = v%d[\"%s\"]", o.i, apDst(o.a), o.i, apSrc(o.a));
+		case ALIAS_APPEND: return fmt("v%d << v%d[0]", o.i, o.i);
+		case ALIAS_EXTEND: return fmt("v%d.extend(v%d[\"%s\"])", o.i, o.i, key(o.a));
+		case OWN_DEEP_PROP: return fmt("v%d = v%d[\"a\"][0]", o.i, o.i);
+		case NEST_OWN: return fmt("v%d[0] = v%d[0][0]", o.i, o.i);
 		}
 		return "?";
 	}
 	static bool container(const MV& x) { return x.t == MV::ARR || x.t == MV::OBJ; }
+	void fastPath(int before, int src) { if (before == Var::STRING && src == Var::STRING) vf::add(W_FP_STR); else if (before == Var::ARRAY && src == Var::ARRAY) vf::add(W_FP_ARR); else if (before == Var::OBJ && src == Var::OBJ) vf::add(W_FP_OBJ); }
+	void ownDesc(int before, int src) { vf::add(W_OWN_DESC); if (before == src) vf::add(W_OWN_SAME); else vf::add(W_OWN_CHANGE); fastPath(before, src); }
+	// container c is about to be mutated in place: does it belong to exactly one side of an earlier clone() whose result is still held?
+	void mutating(const void* c) {
+		for (size_t k = 0; k < clones.size(); k++) {
+			const CloneRec& r = clones[k];
+			if (cid(m[r.slot]) != cid(r.cloneRoot)) continue; // that clone is no longer held
+			if (reaches(r.orig, c) != reaches(r.cloneRoot, c)) vf::add(W_CLONE_MUT);
+		}
+	}
+	void growth(Var& x, int add) {
+		if (x._type == Var::ARRAY && x._a->length() + add > x._a->cap()) vf::add(W_ARR_REALLOC);
+		if (x._type == Var::OBJ && x._o->length() + add > x._o->kv().cap()) vf::add(W_OBJ_REALLOC);
+	}
 	bool apply(int op, std::string& err) {
 		const O& o = ops[op];
 		Var& x = *v[o.i]; MV& mx = m[o.i];
 		bool sharedC = container(mx) && (mx.t == MV::ARR ? mx.a.use_count() : mx.o.use_count()) >= 2;
+		int before = x._type;
 		switch (o.k) {
-		case GEN: { MV g = genModel(o.a); if (mx.t == g.t && mx.t != MV::NONE) vf::add(W_SAMETYPE_FAST); else if (mx.t != MV::NONE) vf::add(W_TYPECHANGE); if (sharedC && !container(g)) vf::add(W_SCALAR_OVER_SHARED); x = genVar(o.a); mx = g; if (o.a == 6 || o.a == 7) vf::add(W_STR_INLINE_HEAP); break; }
-		case ASSIGN: if (mx.t == m[o.j].t) vf::add(W_SAMETYPE_FAST); else if (mx.t != MV::NONE) vf::add(W_TYPECHANGE); x = *v[o.j]; mx = m[o.j]; break;
-		case OWN_ELEM: { vf::add(W_OWN_DESC); MV t = (*mx.a)[o.a]; x = x[o.a]; mx = t; break; }
-		case OWN_PROP: { vf::add(W_OWN_DESC); MV t = (*mx.o)["a"]; x = x["a"]; mx = t; break; }
-		case OWN_DEEP: { vf::add(W_OWN_DESC); MV t = (*(*mx.a)[0].a)[0]; x = x[0][0]; mx = t; break; }
+		case GEN: { MV g = genModel(o.a); if (mx.t == g.t && mx.t != MV::NONE) vf::add(W_SAMETYPE_FAST); else if (mx.t != MV::NONE) vf::add(W_TYPECHANGE); if (sharedC && !container(g)) vf::add(W_SCALAR_OVER_SHARED); { Var gv = genVar(o.a); fastPath(before, gv._type); x = gv; } mx = g; if (o.a == 6 || o.a == 7) vf::add(W_STR_INLINE_HEAP); break; }
+		case ASSIGN: if (mx.t == m[o.j].t) vf::add(W_SAMETYPE_FAST); else if (mx.t != MV::NONE) vf::add(W_TYPECHANGE); fastPath(before, v[o.j]->_type); x = *v[o.j]; mx = m[o.j]; break;
+		case OWN_ELEM: { MV t = (*mx.a)[o.a]; { const Var& s = x[o.a]; ownDesc(before, s._type); x = s; } mx = t; break; }
+		case OWN_PROP: { MV t = (*mx.o)[key(o.a)]; { const Var& s = x[key(o.a)]; ownDesc(before, s._type); x = s; } mx = t; break; }
+		case OWN_DEEP: { MV t = (*(*mx.a)[0].a)[0]; { const Var& s = x[0][0]; ownDesc(before, s._type); x = s; } mx = t; break; }
+		case OWN_DEEP_PROP: { MV t = (*(*mx.o)["a"].a)[0]; { const Var& s = x["a"][0]; ownDesc(before, s._type); x = s; } mx = t; break; }
+		case NEST_OWN: { vf::add(W_NEST_OWN); if (sharedC) vf::add(W_SHARED_MUT); mutating(cid(mx)); MV t = (*(*mx.a)[0].a)[0]; { Var& d = x[0]; const Var& s = d[0]; d = s; } (*mx.a)[0] = t; break; }
 		case SET_ELEM: case SET_ELEM_SCALAR: {
 			if (mx.t == MV::NONE) { vf::add(W_AUTOVIV); mx = MV::arr(); }
-			int idx = o.a == 0 ? 0 : (int)mx.a->size();
-			if (idx >= (int)mx.a->size()) { vf::add(W_AUTORESIZE); mx.a->resize(idx + 1); }
+			int idx = elemIndex(o);
+			if (idx >= (int)mx.a->size()) { vf::add(W_AUTORESIZE); if (idx > (int)mx.a->size()) vf::add(W_INDEX_HOLES); growth(x, idx + 1 - (int)mx.a->size()); mx.a->resize(idx + 1); }
 			if (sharedC) vf::add(W_SHARED_MUT);
+			mutating(cid(mx));
 			if (o.k == SET_ELEM) { x[idx] = *v[o.j]; (*mx.a)[idx] = m[o.j]; } else { x[idx] = 7; (*mx.a)[idx] = MV::integer(7); }
 			break;
 		}
 		case SET_PROP: case SET_PROP_SCALAR: {
 			if (mx.t == MV::NONE) { vf::add(W_AUTOVIV); mx = MV::obj(); }
 			if (sharedC) vf::add(W_SHARED_MUT);
+			mutating(cid(mx));
+			if (!mx.o->count(key(o.a))) { growth(x, 1); if (!mx.o->empty() && key(o.a) < mx.o->begin()->first) vf::add(W_OBJ_INSERT_FRONT); }
 			if (o.k == SET_PROP) { x[key(o.a)] = *v[o.j]; (*mx.o)[key(o.a)] = m[o.j]; } else { x[key(o.a)] = "p"; (*mx.o)[key(o.a)] = MV::str("p"); }
+			if (mx.o->size() >= 4) vf::add(W_OBJ_4KEYS);
 			break;
 		}
-		case APPEND: if (mx.t == MV::NONE) { vf::add(W_AUTOVIV); mx = MV::arr(); } if (sharedC) vf::add(W_SHARED_MUT); x << *v[o.j]; mx.a->push_back(m[o.j]); break;
-		case APPEND_SCALAR: if (mx.t == MV::NONE) { vf::add(W_AUTOVIV); mx = MV::arr(); } if (sharedC) vf::add(W_SHARED_MUT); x << 3; mx.a->push_back(MV::integer(3)); break;
-		case REMOVEAT: if (sharedC) vf::add(W_SHARED_MUT); x.removeAt(0); mx.a->erase(mx.a->begin()); break;
-		case REMOVE: if (sharedC) vf::add(W_SHARED_MUT); x.remove("a"); mx.o->erase("a"); break;
-		case CLEAR: if (sharedC) vf::add(W_SHARED_MUT); x.clear(); if (mx.t == MV::ARR) mx.a->clear(); else mx.o->clear(); break;
-		case EXTEND: { vf::add(W_EXTEND); if (mx.t == MV::NONE) mx = MV::obj(); x.extend(*v[o.j]); std::map<std::string, MV> src(*m[o.j].o); for (std::map<std::string, MV>::iterator it = src.begin(); it != src.end(); ++it) if (it->second.t != MV::NONE) (*mx.o)[it->first] = it->second; break; }
-		case CLONE: vf::add(W_CLONE); x = v[o.j]->clone(); mx = deepclone(m[o.j]); break;
+		case APPEND: if (mx.t == MV::NONE) { vf::add(W_AUTOVIV); mx = MV::arr(); } if (sharedC) vf::add(W_SHARED_MUT); mutating(cid(mx)); growth(x, 1); x << *v[o.j]; mx.a->push_back(m[o.j]); break;
+		case APPEND_SCALAR: if (mx.t == MV::NONE) { vf::add(W_AUTOVIV); mx = MV::arr(); } if (sharedC) vf::add(W_SHARED_MUT); mutating(cid(mx)); growth(x, 1); x << 3; mx.a->push_back(MV::integer(3)); break;
+		case REMOVEAT: if (sharedC) vf::add(W_SHARED_MUT); mutating(cid(mx)); x.removeAt(0); mx.a->erase(mx.a->begin()); break;
+		case REMOVE: if (sharedC) vf::add(W_SHARED_MUT); mutating(cid(mx)); x.remove("a"); mx.o->erase("a"); break;
+		case CLEAR: if (sharedC) vf::add(W_SHARED_MUT); mutating(cid(mx)); x.clear(); if (mx.t == MV::ARR) mx.a->clear(); else mx.o->clear(); break;
+		case EXTEND: { vf::add(W_EXTEND); if (mx.t == MV::NONE) mx = MV::obj(); mutating(cid(mx)); x.extend(*v[o.j]); std::map<std::string, MV> src(*m[o.j].o); for (std::map<std::string, MV>::iterator it = src.begin(); it != src.end(); ++it) if (it->second.t != MV::NONE) (*mx.o)[it->first] = it->second; break; }
+		case CLONE: { vf::add(W_CLONE); x = v[o.j]->clone(); mx = deepclone(m[o.j]); if (container(mx)) { CloneRec r; r.slot = o.i; r.cloneRoot = mx; r.orig = m[o.j]; clones.push_back(r); } break; }
 		case TYPED:
 			if (sharedC) vf::add(W_SCALAR_OVER_SHARED);
 			if (o.a == 0) { x = 5; mx = MV::integer(5); } else if (o.a == 1) { x = "t"; mx = MV::str("t"); } else if (o.a == 2) { x = String("a-long-string"); mx = MV::str("a-long-string"); } else if (o.a == 3) { x = 0.25; mx = MV::num(0.25); }
 			else if (o.a == 4) { x = "1234567"; mx = MV::str("1234567"); if (x._type == Var::STRING) vf::add(W_STR_HEAP_SHORT); } else { x = String("12345678"); mx = MV::str("12345678"); }
 			break;
+		case TYPED2:
+			if (sharedC) vf::add(W_SCALAR_OVER_SHARED);
+			if (before == Var::STRING) vf::add(W_TYPED_OVER_HEAPSTR);
+			if (before == Var::ARRAY || before == Var::OBJ) vf::add(W_TYPED_OVER_CONTAINER);
+			switch (o.a) {
+			case 0: x = true; mx = MV::boolean(true); break;
+			case 1: x = 2.5f; mx = MV::flt(2.5f); break;
+			case 2: x = (Long)4; mx = MV::num(4); break;
+			case 3: x = 1u; mx = MV::integer(1); break;
+			case 4: if (before != Var::STRING) vf::add(W_CSTR_HEAP_ARM); else if (x._s->length() < 9) vf::add(W_CSTR_GROW); x = "12345678"; mx = MV::str("12345678"); break;
+			case 5: x = ""; mx = MV::str(""); break;
+			case 6: x = String("1234567"); mx = MV::str("1234567"); if (x._type == Var::STRING) vf::add(W_STR_HEAP_SHORT); break;
+			case 7: x = Var::NUL; mx = MV::nul(); break;
+			case 8: { Array<int> ai; ai << 1; x = ai; mx = MV::arr(); mx << MV::integer(1); break; }
+			default: { Dic<int> di; di["a"] = 1; x = di; mx = MV::obj(); mx("a", MV::integer(1)); break; }
+			}
+			break;
 		case SELF: { Var& r = x; x = r; break; }
+		// the right operand is evaluated first (the order C++17 prescribes for `a = b`, and what g++ does in every mode), then the target is indexed
+		case ALIAS_ELEM: {
+			if (sharedC) vf::add(W_SHARED_MUT);
+			mutating(cid(mx));
+			int n = (int)mx.a->size();
+			if (o.a == 0) { if (x._a->length() + 1 <= x._a->cap()) vf::add(W_ALIAS_CREATE_OK); else growth(x, 1); MV t = (*mx.a)[0]; { const Var& s = x[0]; x[n] = s; } mx.a->push_back(t); }
+			else { vf::add(W_ALIAS_NOCREATE); MV t = (*mx.a)[n - 1]; { const Var& s = x[n - 1]; x[0] = s; } (*mx.a)[0] = t; }
+			break;
 		}
-		return observe(err);
+		case ALIAS_PROP: {
+			if (sharedC) vf::add(W_SHARED_MUT);
+			mutating(cid(mx));
+			if (mx.o->count(apDst(o.a))) vf::add(W_ALIAS_NOCREATE); else vf::add(W_ALIAS_CREATE_OK);
+			MV t = (*mx.o)[apSrc(o.a)];
+			{ const Var& s = x[apSrc(o.a)]; x[apDst(o.a)] = s; }
+			(*mx.o)[apDst(o.a)] = t;
+			break;
+		}
+		case ALIAS_APPEND: { if (sharedC) vf::add(W_SHARED_MUT); mutating(cid(mx)); if (x._a->length() == x._a->cap()) vf::add(W_ALIAS_APPEND_FULL); growth(x, 1); MV t = (*mx.a)[0]; { const Var& s = x[0]; x << s; } mx.a->push_back(t); break; }
+		case ALIAS_EXTEND: {
+			vf::add(W_ALIAS_EXTEND); if (sharedC) vf::add(W_SHARED_MUT); mutating(cid(mx));
+			std::map<std::string, MV> src(*(*mx.o)[key(o.a)].o);
+			if (src.count(key(o.a)) && src[key(o.a)].t != MV::NONE) vf::add(W_ALIAS_EXTEND_OVERWRITES_SRC);
+			x.extend(x[key(o.a)]);
+			for (std::map<std::string, MV>::iterator it = src.begin(); it != src.end(); ++it) if (it->second.t != MV::NONE) (*mx.o)[it->first] = it->second;
+			break;
+		}
+		}
+		return observe(err, o.i);
 	}
-	bool observe(std::string& err) {
-		for (int i = 0; i < NSLOT; i++) if (!same(*v[i], m[i], err, fmt("v%d", i))) return false;
+	bool observe(std::string& err, int touched) {
+		for (int i = 0; i < NSLOT; i++) if (!same(*v[i], m[i], err, fmt("v%d", i), 0, i == touched)) return false;
 		for (int i = 0; i < NSLOT; i++) for (int j = 0; j < NSLOT; j++) {
 			if (hasNone(m[i]) || hasNone(m[j])) continue; // unset Vars are outside the statement's value list
 			bool e = *v[i] == *v[j], me = meq(m[i], m[j]);
 			if (me) vf::add(W_EQ_TRUE); else vf::add(W_EQ_FALSE);
+			if (me && m[i].t == MV::STR && v[i]->_type != v[j]->_type) vf::add(W_EQ_XREP);
 			if (e != me || (*v[i] != *v[j]) == me) { err = fmt("v%d == v%d is %d, reference %d", i, j, (int)e, (int)me); return false; }
 		}
 		return true;
@@ -292,15 +470,371 @@ struct VarSys {
 	}
 };
 
+// ---------------------------------------------------------------- pure input families
+// One case: body builds real Vars and reference values, compares, and destroys everything it built. ASan + allocation delta as in the BFS.
+template <class F>
+static bool run_case(const std::string& kase, int counter, F body) {
+	for (int attempt = 0; attempt < 2; attempt++) {
+		std::string sig, desc; sig.reserve(64); desc.reserve(2048);
+		vf::cur(kase); vf::asan_clear();
+		uint64_t base = vf::heap_bytes();
+		bool ok = true;
+		{ std::string err, name; if (!body(err, name)) { ok = false; sig = "diverge"; desc = name + ": " + err; } if (vf::asan_tripped()) { ok = false; sig = "asan"; desc = "ASan " + vf::asan_what() + " in " + name + (err.empty() ? "" : "; " + err); } }
+		if (ok && vf::have_asan()) {
+			uint64_t after = vf::heap_bytes();
+			if (after != base && attempt == 0) continue; // lazily built statics allocate once: only a delta that repeats is a leak
+			if (after != base) { ok = false; sig = "leak"; std::string err, name; body(err, name); desc = fmt("allocated bytes %+lld after dropping everything in ", (long long)(after - base)) + name; }
+		}
+		vf::add(counter);
+		if (!ok) vf::violation(sig, desc, kase);
+		vf::asan_clear();
+		return ok;
+	}
+	return true;
+}
+static MV mI(int i) { return MV::integer(i); }
+static MV mS(const std::string& s) { return MV::str(s); }
+static const char* DIGITS = "123456789012345678901234567890";
+static const char* LETTERS = "abcdefghijklmnopqrstuvwxyzABCD";
+
+// ---- value set: named builders of a real Var (into a fresh, unset heap Var) with its reference value
+struct Val { std::string name; std::function<void(Var&)> build; std::function<MV()> model; };
+static std::vector<Val> VS;
+static void heapStr(Var& v, const char* s) { v = "a-string-longer-than-the-inline-space"; v = s; } // keeps the heap representation whatever the length
+static void addVal(const std::string& n, std::function<void(Var&)> b, std::function<MV()> m) { Val x; x.name = n; x.build = b; x.model = m; VS.push_back(x); }
+#define LEAF(name, expr, model) addVal(name, [](Var& v) { v = Var(expr); }, []() { return model; })
+static void buildValues() {
+	LEAF("null", Var::NUL, MV::nul()); LEAF("true", true, MV::boolean(true)); LEAF("false", false, MV::boolean(false));
+	LEAF("0", 0, mI(0)); LEAF("1", 1, mI(1)); LEAF("-1", -1, mI(-1)); LEAF("2", 2, mI(2)); LEAF("16777217", 16777217, mI(16777217));
+	LEAF("0.0", 0.0, MV::num(0)); LEAF("1.0", 1.0, MV::num(1)); LEAF("-1.0", -1.0, MV::num(-1)); LEAF("1.5", 1.5, MV::num(1.5)); LEAF("0.1", 0.1, MV::num(0.1)); LEAF("3e9", 3000000000u, MV::num(3e9)); LEAF("2^40", (Long)1 << 40, MV::num(1099511627776.0));
+	LEAF("0.0f", 0.0f, MV::flt(0)); LEAF("1.0f", 1.0f, MV::flt(1)); LEAF("1.5f", 1.5f, MV::flt(1.5f)); LEAF("2.5f", 2.5f, MV::flt(2.5f)); LEAF("0.1f", 0.1f, MV::flt(0.1f)); LEAF("16777216f", 16777216.0f, MV::flt(16777216.0f));
+	LEAF("''", "", mS("")); LEAF("'s'", "s", mS("s")); LEAF("'1'", "1", mS("1")); LEAF("'true'", "true", mS("true")); LEAF("'1234567'", "1234567", mS("1234567")); LEAF("'1234568'", "1234568", mS("1234568"));
+	LEAF("'12345678'", "12345678", mS("12345678")); LEAF("'12345679'", "12345679", mS("12345679")); LEAF("'123456789'", "123456789", mS("123456789")); LEAF("'1234567' via String", String("1234567"), mS("1234567"));
+	addVal("heap ''", [](Var& v) { heapStr(v, ""); }, []() { return mS(""); });
+	addVal("heap 's'", [](Var& v) { heapStr(v, "s"); }, []() { return mS("s"); });
+	addVal("heap '1234567'", [](Var& v) { heapStr(v, "1234567"); }, []() { return mS("1234567"); });
+	addVal("heap '1234568'", [](Var& v) { heapStr(v, "1234568"); }, []() { return mS("1234568"); });
+	LEAF("[]", Var::ARRAY, MV::arr()); LEAF("{}", Var::OBJ, MV::obj());
+	addVal("[1]", [](Var& v) { v << 1; }, []() { return MV::arr() << mI(1); });
+	addVal("[1.0]", [](Var& v) { v << 1.0; }, []() { return MV::arr() << MV::num(1); });
+	addVal("[true]", [](Var& v) { v << true; }, []() { return MV::arr() << MV::boolean(true); });
+	addVal("[null]", [](Var& v) { v << Var(Var::NUL); }, []() { return MV::arr() << MV::nul(); });
+	addVal("['s']", [](Var& v) { v << "s"; }, []() { return MV::arr() << mS("s"); });
+	addVal("[heap 's']", [](Var& v) { v[0] = "12345678"; v[0] = "s"; }, []() { return MV::arr() << mS("s"); });
+	addVal("[1,2]", [](Var& v) { v << 1 << 2; }, []() { return MV::arr() << mI(1) << mI(2); });
+	addVal("[2,1]", [](Var& v) { v << 2 << 1; }, []() { return MV::arr() << mI(2) << mI(1); });
+	addVal("[1,2,3,4]", [](Var& v) { v << 1 << 2 << 3 << 4; }, []() { return MV::arr() << mI(1) << mI(2) << mI(3) << mI(4); });
+	addVal("[[1]]", [](Var& v) { Var in; in << 1; v << in; }, []() { return MV::arr() << (MV::arr() << mI(1)); });
+	addVal("[[1],2]", [](Var& v) { Var in; in << 1; v << in << 2; }, []() { return MV::arr() << (MV::arr() << mI(1)) << mI(2); });
+	addVal("[[1],[1]] (one child twice)", [](Var& v) { Var in; in << 1; v << in << in; }, []() { MV in = MV::arr() << mI(1); return MV::arr() << in << in; });
+	addVal("[[1.0],2.0f]", [](Var& v) { Var in; in << 1.0; v << in << 2.0f; }, []() { return MV::arr() << (MV::arr() << MV::num(1)) << MV::flt(2); });
+	addVal("[['12345678']]", [](Var& v) { Var in; in << "12345678"; v << in; }, []() { return MV::arr() << (MV::arr() << mS("12345678")); });
+	addVal("[{}]", [](Var& v) { v << Var(Var::OBJ); }, []() { return MV::arr() << MV::obj(); });
+	addVal("[[]]", [](Var& v) { v << Var(Var::ARRAY); }, []() { return MV::arr() << MV::arr(); });
+	addVal("{a:1}", [](Var& v) { v["a"] = 1; }, []() { return MV::obj()("a", mI(1)); });
+	addVal("{a:1.0}", [](Var& v) { v["a"] = 1.0; }, []() { return MV::obj()("a", MV::num(1)); });
+	addVal("{a:2}", [](Var& v) { v["a"] = 2; }, []() { return MV::obj()("a", mI(2)); });
+	addVal("{b:1}", [](Var& v) { v["b"] = 1; }, []() { return MV::obj()("b", mI(1)); });
+	addVal("{a:1,b:2}", [](Var& v) { v["a"] = 1; v["b"] = 2; }, []() { return MV::obj()("a", mI(1))("b", mI(2)); });
+	addVal("{b:2,a:1} (other insertion order)", [](Var& v) { v["b"] = 2; v["a"] = 1; }, []() { return MV::obj()("a", mI(1))("b", mI(2)); });
+	addVal("{a:1,b:2,c:3,d:4}", [](Var& v) { v["d"] = 4; v["a"] = 1; v["c"] = 3; v["b"] = 2; }, []() { return MV::obj()("a", mI(1))("b", mI(2))("c", mI(3))("d", mI(4)); });
+	addVal("{a:[1]}", [](Var& v) { Var in; in << 1; v["a"] = in; }, []() { return MV::obj()("a", MV::arr() << mI(1)); });
+	addVal("{a:{b:[1]}}", [](Var& v) { v["a"]["b"][0] = 1; }, []() { return MV::obj()("a", MV::obj()("b", MV::arr() << mI(1))); });
+	addVal("{a:'12345678',b:{}}", [](Var& v) { v["a"] = "12345678"; v["b"] = Var(Var::OBJ); }, []() { return MV::obj()("a", mS("12345678"))("b", MV::obj()); });
+}
+
+// ---- eq: all ordered pairs of the value set, also as copies / clones and wrapped in an array and in an object
+static bool eqCase(int i, int j, std::string& err, std::string& name) {
+	name = "(" + VS[i].name + ") == (" + VS[j].name + ")";
+	std::unique_ptr<Var> a(new Var), b(new Var);
+	VS[i].build(*a); VS[j].build(*b);
+	MV ma = VS[i].model(), mb = VS[j].model();
+	if (!same(*a, ma, err, "left") || !same(*b, mb, err, "right")) return false;
+	bool me = meq(ma, mb), e = *a == *b, ne = *a != *b;
+	if (ma.isnum() && mb.isnum() && ma.t != mb.t && me) vf::add(W_EQ_NUM_XTYPE);
+	if (ma.t == MV::BOOL && mb.t == MV::BOOL) vf::add(W_EQ_BOOLS);
+	if (ma.t == MV::STR && me && a->_type != b->_type) vf::add(W_EQ_XREP);
+	if ((ma.t == MV::ARR || ma.t == MV::OBJ) && ma.t == mb.t) vf::add(me ? W_EQ_CONT_TRUE : W_EQ_CONT_FALSE);
+	if (e != me || ne == me) { err = fmt("== is %d, != is %d, reference equality %d", (int)e, (int)ne, (int)me); return false; }
+	Var c(*a); Var d = b->clone();
+	if ((c == d) != me || (d == c) != me) { err = fmt("copy == clone is %d / %d, reference %d", (int)(c == d), (int)(d == c), (int)me); return false; }
+	Var wa, wb; wa << *a; wb << *b;
+	if ((wa == wb) != me || (wa != wb) == me) { err = fmt("[left] == [right] is %d, reference %d", (int)(wa == wb), (int)me); return false; }
+	Var oa, ob; oa["k"] = *a; ob["k"] = *b;
+	if ((oa == ob) != me) { err = fmt("{k:left} == {k:right} is %d, reference %d", (int)(oa == ob), (int)me); return false; }
+	return true;
+}
+// ---- eqt: value x typed constant through the typed overloads of == and !=
+struct TC { std::string name; std::function<bool(const Var&)> eq, ne; MV m; };
+static std::vector<TC> TCS;
+#define TCONST(nm, expr, model) { TC t; t.name = nm; t.eq = [](const Var& v) { return v == (expr); }; t.ne = [](const Var& v) { return v != (expr); }; t.m = model; TCS.push_back(t); }
+static void buildConsts() {
+	TCONST("true", true, MV::boolean(true)); TCONST("false", false, MV::boolean(false));
+	TCONST("0", 0, mI(0)); TCONST("1", 1, mI(1)); TCONST("-1", -1, mI(-1)); TCONST("2", 2, mI(2)); TCONST("16777217", 16777217, mI(16777217));
+	TCONST("0.0", 0.0, MV::num(0)); TCONST("1.0", 1.0, MV::num(1)); TCONST("1.5", 1.5, MV::num(1.5)); TCONST("0.1", 0.1, MV::num(0.1)); TCONST("3e9", 3e9, MV::num(3e9));
+	TCONST("0.0f", 0.0f, MV::flt(0)); TCONST("1.0f", 1.0f, MV::flt(1)); TCONST("1.5f", 1.5f, MV::flt(1.5f)); TCONST("2.5f", 2.5f, MV::flt(2.5f)); TCONST("0.1f", 0.1f, MV::flt(0.1f));
+	TCONST("(const char*)''", "", mS("")); TCONST("(const char*)'s'", "s", mS("s")); TCONST("(const char*)'1'", "1", mS("1")); TCONST("(const char*)'1234567'", "1234567", mS("1234567")); TCONST("(const char*)'12345678'", "12345678", mS("12345678")); TCONST("(const char*)'true'", "true", mS("true"));
+	TCONST("String('')", String(""), mS("")); TCONST("String('s')", String("s"), mS("s")); TCONST("String('1')", String("1"), mS("1")); TCONST("String('1234567')", String("1234567"), mS("1234567")); TCONST("String('12345678')", String("12345678"), mS("12345678")); TCONST("String('1234568')", String("1234568"), mS("1234568"));
+}
+static bool eqtCase(int i, int k, std::string& err, std::string& name) {
+	name = "(" + VS[i].name + ") == " + TCS[k].name;
+	std::unique_ptr<Var> a(new Var);
+	VS[i].build(*a);
+	MV ma = VS[i].model();
+	if (ma.t == MV::INT && TCS[k].m.t == MV::FLT && (double)(float)ma.i != (double)ma.i) return true; // int not representable as float: outside "Var with Var"
+	bool me = meq(ma, TCS[k].m), e = TCS[k].eq(*a), ne = TCS[k].ne(*a);
+	if (e != me || ne == me) { err = fmt("== is %d, != is %d, reference equality %d", (int)e, (int)ne, (int)me); return false; }
+	return true;
+}
+
+// ---- cln: clone, then mutate every node of one side in place; the other side must keep the value
+static void mutateAll(Var& v) {
+	switch (v.type()) {
+	case Var::ARRAY: for (int i = 0; i < v.length(); i++) mutateAll(v[i]); v << 99; break;
+	case Var::OBJ: { foreach2 (String & k, Var & x, v) { (void)k; mutateAll(x); } v["zz"] = 99; break; }
+	case Var::STRING: { std::string s(v.length(), '#'); v = s.c_str(); break; } // same length: written into the existing buffer
+	default: v = 77; break;
+	}
+}
+static bool clnCase(int i, int dir, std::string& err, std::string& name) {
+	name = "(" + VS[i].name + fmt(").clone(), then every node of the %s mutated", dir == 0 ? "original" : "clone");
+	std::unique_ptr<Var> a(new Var), c(new Var);
+	VS[i].build(*a);
+	MV ma = VS[i].model();
+	*c = a->clone();
+	if (!same(*c, ma, err, "clone") || !same(*a, ma, err, "original")) return false;
+	if (!hasNone(ma) && (!(*c == *a) || *c != *a)) { err = "clone != original"; return false; }
+	mutateAll(dir == 0 ? *a : *c);
+	if (!same(dir == 0 ? *c : *a, ma, err, dir == 0 ? "clone after mutating the original" : "original after mutating the clone")) return false;
+	a.reset(); // the survivor must not depend on the other one's storage
+	if (dir == 0 && !same(*c, ma, err, "clone after destroying the original")) return false;
+	return true;
+}
+
+// ---- ctor: every constructor x boundary values
+struct CT { std::string name; std::function<bool(std::string&)> run; };
+static std::vector<CT> CTS;
+// v was just built: accessors, copy, clone, assignment into an unset and into a heap-string Var, self equality
+static bool chk(const Var& v, const MV& m, std::string& err) {
+	if (!same(v, m, err, "v")) return false;
+	(void)v.toString(); // text of containers: called, not compared (C05 covers encodings)
+	Var c(v); if (!same(c, m, err, "copy")) return false;
+	Var d = v.clone(); if (!same(d, m, err, "clone")) return false;
+	Var e; e = v; if (!same(e, m, err, "assigned to an unset Var")) return false;
+	Var f("a heap string"); f = v; if (!same(f, m, err, "assigned over a heap string")) return false;
+	if (!hasNone(m) && (!(v == c) || !(c == v) || v != d || !(e == f))) { err = "a copy / clone / assigned Var is not equal to the original"; return false; }
+	return true;
+}
+// an integer given in any C++ integer type must come back with that value, as INT or (when it does not fit an int) as NUMBER
+static bool chkInt(const Var& v, long double val, std::string& err) {
+	if (v.type() != Var::INT && v.type() != Var::NUMBER) { err = fmt("type %d for an integer", (int)v.type()); return false; }
+	if ((long double)(double)v != val) { err = fmt("value %.0Lf reported back as %.17g (type %d)", val, (double)v, (int)v.type()); return false; }
+	if (val > INT_MAX || val < INT_MIN) vf::add(W_CTOR_BIG);
+	return chk(v, v.type() == Var::INT ? mI((int)val) : MV::num((double)val), err);
+}
+template <class T>
+static void ctorInts(const char* tn, bool isSigned) {
+	static const long long sv[] = { 0, 1, -1, 5, 127, -128, INT_MAX, INT_MIN, (long long)INT_MAX + 1, (long long)INT_MIN - 1, 3000000000LL, 4294967295LL, 4294967296LL, 5000000000LL, -5000000000LL, 1LL << 40, -(1LL << 40), 1LL << 53, -(1LL << 53) };
+	static const unsigned long long uv[] = { 1ULL << 63 };
+	for (size_t k = 0; k < sizeof sv / sizeof sv[0] + sizeof uv / sizeof uv[0]; k++) {
+		bool big = k >= sizeof sv / sizeof sv[0];
+		long double val = big ? (long double)uv[k - sizeof sv / sizeof sv[0]] : (long double)sv[k];
+		T t = big ? (T)uv[k - sizeof sv / sizeof sv[0]] : (T)sv[k];
+		if ((long double)t != val || (!isSigned && val < 0)) continue; // not a value of T
+		CT c; c.name = fmt("Var((%s)%.0Lf)", tn, val); c.run = [t, val](std::string& err) { Var v(t); return chkInt(v, val, err); }; CTS.push_back(c);
+		CT a; a.name = fmt("Var v; v = (%s)%.0Lf", tn, val); a.run = [t, val](std::string& err) { Var v; v = t; if (!chkInt(v, val, err)) return false; Var w("over a heap string"); w = t; return chkInt(w, val, err); }; CTS.push_back(a);
+	}
+}
+#define CTOR(nm, expr, model) { CT c; c.name = nm; c.run = [](std::string& err) { Var v(expr); return chk(v, model, err); }; CTS.push_back(c); }
+#define CTORB(nm, ...) { CT c; c.name = nm; c.run = [](std::string& err) -> bool { __VA_ARGS__ }; CTS.push_back(c); }
+static void buildCtors() {
+	ctorInts<int>("int", true); ctorInts<unsigned>("unsigned", false); ctorInts<long>("long", true); ctorInts<unsigned long>("unsigned long", false); ctorInts<Long>("Long", true); ctorInts<ULong>("ULong", false); ctorInts<char>("char", true);
+	CTOR("Var(5) is INT", 5, mI(5)); CTOR("Var(INT_MIN)", INT_MIN, mI(INT_MIN)); CTOR("Var(3000000000u) is NUMBER", 3000000000u, MV::num(3e9)); CTOR("Var(2147483647u)", 2147483647u, mI(INT_MAX));
+	CTOR("Var((Long)5) is NUMBER", (Long)5, MV::num(5)); CTOR("Var((ULong)5) is NUMBER", (ULong)5, MV::num(5));
+	CTOR("Var(0.0)", 0.0, MV::num(0)); CTOR("Var(1.5)", 1.5, MV::num(1.5)); CTOR("Var(0.1)", 0.1, MV::num(0.1)); CTOR("Var(-2.5e-10)", -2.5e-10, MV::num(-2.5e-10)); CTOR("Var(1e300)", 1e300, MV::num(1e300)); CTOR("Var(9007199254740992.0)", 9007199254740992.0, MV::num(9007199254740992.0)); CTOR("Var(123456789.125)", 123456789.125, MV::num(123456789.125));
+	CTOR("Var(0.0f)", 0.0f, MV::flt(0)); CTOR("Var(1.5f)", 1.5f, MV::flt(1.5f)); CTOR("Var(0.1f)", 0.1f, MV::flt(0.1f)); CTOR("Var(3.0e38f)", 3.0e38f, MV::flt(3.0e38f)); CTOR("Var(16777216.0f)", 16777216.0f, MV::flt(16777216.0f)); CTOR("Var(-7.0f)", -7.0f, MV::flt(-7));
+	CTOR("Var(true)", true, MV::boolean(true)); CTOR("Var(false)", false, MV::boolean(false));
+	CTOR("Var(Var::NUL)", Var::NUL, MV::nul()); CTOR("Var(Var::ARRAY)", Var::ARRAY, MV::arr()); CTOR("Var(Var::OBJ)", Var::OBJ, MV::obj()); CTOR("Var(Var::NONE)", Var::NONE, MV());
+	static const int lens[] = { 0, 1, 6, 7, 8, 9, 15, 16, 17, 30 };
+	for (size_t k = 0; k < sizeof lens / sizeof lens[0]; k++) for (int pat = 0; pat < 2; pat++) {
+		std::string s((pat ? LETTERS : DIGITS), lens[k]);
+		CT c; c.name = "Var((const char*)\"" + s + "\")"; c.run = [s](std::string& err) { vfx::FlushBuf fb(s); Var v((const char*)fb.p); if (s.size() == 7 || s.size() == 8) vf::add(W_CTOR_STR_EDGE); return chk(v, mS(s), err); }; CTS.push_back(c);
+		CT d; d.name = "Var(String(\"" + s + "\"))"; d.run = [s](std::string& err) { String t = vfx::A(s); Var v(t); if (s.size() == 7 || s.size() == 8) vf::add(W_CTOR_STR_EDGE); return chk(v, mS(s), err); }; CTS.push_back(d);
+	}
+	// containers
+	CTORB("Var(Array<Var>{1,'s',[2]})", Array<Var> a; Var in; in << 2; a << Var(1) << Var("s") << in; Var v(a); return chk(v, MV::arr() << mI(1) << mS("s") << (MV::arr() << mI(2)), err););
+	CTORB("Var(Array<int>{})", Array<int> a; Var v(a); return chk(v, MV::arr(), err););
+	CTORB("Var(Array<int>{1,2,3,4})", Array<int> a; a << 1 << 2 << 3 << 4; Var v(a); return chk(v, MV::arr() << mI(1) << mI(2) << mI(3) << mI(4), err););
+	CTORB("Var(Array<double>{1.5,2})", Array<double> a; a << 1.5 << 2.0; Var v(a); return chk(v, MV::arr() << MV::num(1.5) << MV::num(2), err););
+	CTORB("Var(Array<float>{1.5f})", Array<float> a; a << 1.5f; Var v(a); return chk(v, MV::arr() << MV::flt(1.5f), err););
+	CTORB("Var(Array<bool>{true,false})", Array<bool> a; a << true << false; Var v(a); return chk(v, MV::arr() << MV::boolean(true) << MV::boolean(false), err););
+	CTORB("Var(Array<String>{'','1234567','12345678'})", Array<String> a; a << String("") << String("1234567") << String("12345678"); Var v(a); return chk(v, MV::arr() << mS("") << mS("1234567") << mS("12345678"), err););
+	CTORB("Var(Array<Array<int>>{{1},{}})", Array<Array<int> > a; Array<int> x; x << 1; a << x << Array<int>(); Var v(a); return chk(v, MV::arr() << (MV::arr() << mI(1)) << MV::arr(), err););
+	CTORB("Var(Dic<Var>{a:1,b:'12345678'})", Dic<Var> d; d["b"] = "12345678"; d["a"] = 1; Var v(d); return chk(v, MV::obj()("a", mI(1))("b", mS("12345678")), err););
+	CTORB("Var(Dic<int>{})", Dic<int> d; Var v(d); return chk(v, MV::obj(), err););
+	CTORB("Var(Dic<int>{a:1,b:2,c:3,d:4})", Dic<int> d; d["d"] = 4; d["a"] = 1; d["c"] = 3; d["b"] = 2; Var v(d); return chk(v, MV::obj()("a", mI(1))("b", mI(2))("c", mI(3))("d", mI(4)), err););
+	CTORB("Var(Dic<String>{k:'12345678'})", Dic<String> d; d["k"] = "12345678"; Var v(d); return chk(v, MV::obj()("k", mS("12345678")), err););
+	CTORB("Var(Dic<double>{k:0.5})", Dic<double> d; d["k"] = 0.5; Var v(d); return chk(v, MV::obj()("k", MV::num(0.5)), err););
+	CTORB("Var('x', 3)", Var v("x", 3); return chk(v, MV::obj()("x", mI(3)), err););
+	CTORB("Var('name','particle1')('x',15.0)('visible',true)('color',[255,0])", Var col; col << 255 << 0; Var v = Var("name", "particle1")("x", 15.0)("visible", true)("color", col); return chk(v, MV::obj()("name", mS("particle1"))("x", MV::num(15))("visible", MV::boolean(true))("color", MV::arr() << mI(255) << mI(0)), err););
+	CTORB("(Var(), 1, 3.5, 's')", Var v = (Var(), 1, 3.5, "s"); return chk(v, MV::arr() << mI(1) << MV::num(3.5) << mS("s"), err););
+#ifdef ASL_HAVE_INITLIST
+	CTORB("Var{1,3,9,-2}", Var v{ 1, 3, 9, -2 }; return chk(v, MV::arr() << mI(1) << mI(3) << mI(9) << mI(-2), err););
+	CTORB("Var{1.5,2.5}", Var v{ 1.5, 2.5 }; return chk(v, MV::arr() << MV::num(1.5) << MV::num(2.5), err););
+	CTORB("Var{'a','12345678'}", Var v{ "a", "12345678" }; return chk(v, MV::arr() << mS("a") << mS("12345678"), err););
+	CTORB("Var{{1,2},{3}}", Var v{ { 1, 2 }, { 3 } }; return chk(v, MV::arr() << (MV::arr() << mI(1) << mI(2)) << (MV::arr() << mI(3)), err););
+	CTORB("Var{{'a',1},{'b','x'}}", Var v{ { "a", 1 }, { "b", "x" } }; return chk(v, MV::obj()("a", mI(1))("b", mS("x")), err););
+	CTORB("Var::array({1,'a',9.5,-2})", Var v = Var::array({ 1, "a", 9.5, -2 }); return chk(v, MV::arr() << mI(1) << mS("a") << MV::num(9.5) << mI(-2), err););
+	CTORB("v = {1,2,3} over an object", Var v; v["k"] = "12345678"; v = { 1, 2, 3 }; return chk(v, MV::arr() << mI(1) << mI(2) << mI(3), err););
+	CTORB("v = {{'a',1}} over an array", Var v; v << "12345678"; v = { { "a", 1 } }; return chk(v, MV::obj()("a", mI(1)), err););
+#endif
+	// conversions out of containers
+	CTORB("Array<int> = [1,2,3]", Var v; v << 1 << 2 << 3; Array<int> a = v; if (a.length() != 3 || a[0] != 1 || a[1] != 2 || a[2] != 3) { err = "elements differ"; return false; } Array<int> b; b = v; if (b.length() != 3 || b[2] != 3) { err = "Array<int>::operator=(Var) differs"; return false; } return true;);
+	CTORB("Array<double> = [1,2.5]", Var v; v << 1 << 2.5; Array<double> a = v; if (a.length() != 2 || a[0] != 1 || a[1] != 2.5) { err = "elements differ"; return false; } return true;);
+	CTORB("Array<String> = ['s','12345678']", Var v; v << "s" << "12345678"; Array<String> a = v; if (a.length() != 2 || a[0] != "s" || a[1] != "12345678") { err = "elements differ"; return false; } Array<String> b; b = v; if (b.length() != 2 || b[1] != "12345678") { err = "Array<String>::operator=(Var) differs"; return false; } return true;);
+	CTORB("Array<int> = {a:1} / 5 (not an array)", Var v; v["a"] = 1; Array<int> a = v; Var w(5); Array<int> b = w; if (a.length() != 0 || b.length() != 0) { err = "non-empty array from a non-array"; return false; } return true;);
+	CTORB("Dic<int> = {a:1,b:2}", Var v; v["a"] = 1; v["b"] = 2; Dic<int> d = v; if (d.length() != 2 || d["a"] != 1 || d["b"] != 2) { err = "properties differ"; return false; } return true;);
+	CTORB("Dic<String> = {k:'12345678'}", Var v; v["k"] = "12345678"; Dic<String> d = v; if (d.length() != 1 || d["k"] != "12345678") { err = "properties differ"; return false; } Dic<Var> e = v.object(); if (e.length() != 1 || !(e["k"] == "12345678")) { err = "object() differs"; return false; } return true;);
+	CTORB("array() / object() handles", Var v; v << 1 << "12345678"; Array<Var> a = v.array(); if (a.length() != 2 || !(a[0] == 1) || !(a[1] == "12345678") || v.object().length() != 0) { err = "array() differs"; return false; } return true;);
+}
+
+// ---- tas: prior state x typed assignment (x typed assignment)
+struct World { std::unique_ptr<Var> a, b; Var* t; MV ma, mb; int tk, ti; World() : a(new Var), b(new Var), t(0), tk(0), ti(0) {} };
+struct Prior { std::string name; std::function<void(World&)> build; };
+struct TA { std::string name; std::function<void(Var&)> assign; std::function<MV()> model; int slen; };
+static std::vector<Prior> PRS; static std::vector<TA> TAS;
+static void setTarget(World& w, const MV& e) { if (w.tk == 0) w.ma = e; else if (w.tk == 1) (*w.ma.a)[w.ti] = e; else (*w.ma.o)["k"] = e; }
+#define PRIOR(nm, body) { Prior p; p.name = nm; p.build = [](World& w) { Var& a = *w.a; Var& b = *w.b; (void)a; (void)b; body }; PRS.push_back(p); }
+#define TASG(nm, stmt, model_, slen_) { TA t; t.name = nm; t.assign = [](Var& x) { stmt; }; t.model = []() { return model_; }; t.slen = slen_; TAS.push_back(t); }
+static void buildTas() {
+	// roots
+	PRIOR("unset", w.t = &a;);
+	PRIOR("null", a = Var(Var::NUL); w.ma = MV::nul(); w.t = &a;);
+	PRIOR("true", a = true; w.ma = MV::boolean(true); w.t = &a;);
+	PRIOR("1", a = 1; w.ma = mI(1); w.t = &a;);
+	PRIOR("1.5", a = 1.5; w.ma = MV::num(1.5); w.t = &a;);
+	PRIOR("2.5f", a = 2.5f; w.ma = MV::flt(2.5f); w.t = &a;);
+	PRIOR("''", a = ""; w.ma = mS(""); w.t = &a;);
+	PRIOR("'s'", a = "s"; w.ma = mS("s"); w.t = &a;);
+	PRIOR("'1234567'", a = "1234567"; w.ma = mS("1234567"); w.t = &a;);
+	PRIOR("'12345678' (heap, capacity 9)", a = "12345678"; w.ma = mS("12345678"); w.t = &a;);
+	PRIOR("30-char heap string", a = LETTERS; w.ma = mS(LETTERS); w.t = &a;);
+	PRIOR("heap 's'", a = "12345678"; a = "s"; w.ma = mS("s"); w.t = &a;);
+	PRIOR("heap ''", a = "12345678"; a = ""; w.ma = mS(""); w.t = &a;);
+	PRIOR("[]", a = Var(Var::ARRAY); w.ma = MV::arr(); w.t = &a;);
+	PRIOR("[1]", a << 1; w.ma = MV::arr() << mI(1); w.t = &a;);
+	PRIOR("[[1],2]", Var in; in << 1; a << in << 2; w.ma = MV::arr() << (MV::arr() << mI(1)) << mI(2); w.t = &a;);
+	PRIOR("['12345678',{a:1}]", Var o; o["a"] = 1; a << "12345678" << o; w.ma = MV::arr() << mS("12345678") << MV::obj()("a", mI(1)); w.t = &a;);
+	PRIOR("{}", a = Var(Var::OBJ); w.ma = MV::obj(); w.t = &a;);
+	PRIOR("{a:1}", a["a"] = 1; w.ma = MV::obj()("a", mI(1)); w.t = &a;);
+	PRIOR("{a:[1]}", Var in; in << 1; a["a"] = in; w.ma = MV::obj()("a", MV::arr() << mI(1)); w.t = &a;);
+	// roots sharing their container with b
+	PRIOR("[1] shared with a second Var", a << 1; b = a; w.ma = MV::arr() << mI(1); w.mb = w.ma; w.t = &a;);
+	PRIOR("{a:[1]} shared with a second Var", Var in; in << 1; a["a"] = in; b = a; w.ma = MV::obj()("a", MV::arr() << mI(1)); w.mb = w.ma; w.t = &a;);
+	// elements and properties as the target
+	PRIOR("element [0] of [[1],2]", Var in; in << 1; a << in << 2; w.ma = MV::arr() << (MV::arr() << mI(1)) << mI(2); w.tk = 1; w.ti = 0; w.t = &a[0];);
+	PRIOR("element [0] of [[1],2], inner array also held by a second Var", Var in; in << 1; a << in << 2; b = a[0]; w.ma = MV::arr() << (MV::arr() << mI(1)) << mI(2); w.mb = (*w.ma.a)[0]; w.tk = 1; w.ti = 0; w.t = &a[0];);
+	PRIOR("element [0] of ['12345678',2]", a << "12345678" << 2; w.ma = MV::arr() << mS("12345678") << mI(2); w.tk = 1; w.ti = 0; w.t = &a[0];);
+	PRIOR("element [2] of [1,2,3] (last slot of the block)", a << 1 << 2 << 3; w.ma = MV::arr() << mI(1) << mI(2) << mI(3); w.tk = 1; w.ti = 2; w.t = &a[2];);
+	PRIOR("property k of {k:{a:1}}", a["k"]["a"] = 1; w.ma = MV::obj()("k", MV::obj()("a", mI(1))); w.tk = 2; w.t = &a["k"];);
+	PRIOR("property k of {k:'s'} shared with a second Var", a["k"] = "s"; b = a; w.ma = MV::obj()("k", mS("s")); w.mb = w.ma; w.tk = 2; w.t = &a["k"];);
+
+	TASG("true", x = true, MV::boolean(true), -1); TASG("false", x = false, MV::boolean(false), -1);
+	TASG("0", x = 0, mI(0), -1); TASG("5", x = 5, mI(5), -1); TASG("INT_MIN", x = INT_MIN, mI(INT_MIN), -1);
+	TASG("0.25", x = 0.25, MV::num(0.25), -1); TASG("2.5f", x = 2.5f, MV::flt(2.5f), -1);
+	TASG("(Long)1", x = (Long)1, MV::num(1), -1); TASG("(Long)2^40", x = (Long)1 << 40, MV::num(1099511627776.0), -1); TASG("(Long)-2^40", x = -((Long)1 << 40), MV::num(-1099511627776.0), -1); TASG("(ULong)2^40", x = (ULong)1 << 40, MV::num(1099511627776.0), -1);
+	TASG("1u", x = 1u, mI(1), -1); TASG("2147483647u", x = 2147483647u, mI(INT_MAX), -1); TASG("2147483648u", x = 2147483648u, MV::num(2147483648.0), -1); TASG("4294967295u", x = 4294967295u, MV::num(4294967295.0), -1);
+	TASG("(long)5", x = (long)5, mI(5), -1); TASG("(unsigned long)5", x = (unsigned long)5, mI(5), -1);
+	TASG("Var::NUL", x = Var::NUL, MV::nul(), -1); TASG("Var::ARRAY", x = Var::ARRAY, MV::arr(), -1); TASG("Var::OBJ", x = Var::OBJ, MV::obj(), -1); TASG("Var::NONE", x = Var::NONE, MV(), -1);
+	TASG("(const char*)''", x = "", mS(""), 0); TASG("(const char*)'1'", x = "1", mS("1"), 1); TASG("(const char*)'123456'", x = "123456", mS("123456"), 6); TASG("(const char*)'1234567'", x = "1234567", mS("1234567"), 7);
+	TASG("(const char*)'12345678'", x = "12345678", mS("12345678"), 8); TASG("(const char*)'123456789'", x = "123456789", mS("123456789"), 9); TASG("(const char*) 30 chars", x = DIGITS, mS(DIGITS), 30);
+	TASG("String('')", x = String(""), mS(""), 0); TASG("String('a')", x = String("a"), mS("a"), 1); TASG("String('abcdef')", x = String("abcdef"), mS("abcdef"), 6); TASG("String('abcdefg')", x = String("abcdefg"), mS("abcdefg"), 7);
+	TASG("String('abcdefgh')", x = String("abcdefgh"), mS("abcdefgh"), 8); TASG("String('abcdefghi')", x = String("abcdefghi"), mS("abcdefghi"), 9); TASG("String 30 chars", x = String(LETTERS), mS(LETTERS), 30);
+	TASG("Array<int>{}", x = Array<int>(), MV::arr(), -1);
+	TASG("Array<int>{1,2}", Array<int> a; a << 1 << 2; x = a, MV::arr() << mI(1) << mI(2), -1);
+	TASG("Array<int>{1,2,3,4}", Array<int> a; a << 1 << 2 << 3 << 4; x = a, MV::arr() << mI(1) << mI(2) << mI(3) << mI(4), -1);
+	TASG("Array<String>{'s','12345678'}", Array<String> a; a << String("s") << String("12345678"); x = a, MV::arr() << mS("s") << mS("12345678"), -1);
+	TASG("Array<Var>{1,'12345678'}", Array<Var> a; a << Var(1) << Var("12345678"); x = a, MV::arr() << mI(1) << mS("12345678"), -1);
+	TASG("Dic<int>{a:1}", Dic<int> d; d["a"] = 1; x = d, MV::obj()("a", mI(1)), -1);
+	TASG("Dic<String>{a:'12345678'}", Dic<String> d; d["a"] = "12345678"; x = d, MV::obj()("a", mS("12345678")), -1);
+	TASG("Dic<Var>{}", x = Dic<Var>(), MV::obj(), -1);
+#ifdef ASL_HAVE_INITLIST
+	TASG("{1,2,3}", (x = { 1, 2, 3 }), MV::arr() << mI(1) << mI(2) << mI(3), -1);
+	TASG("{{'a',1},{'b','x'}}", (x = { { "a", 1 }, { "b", "x" } }), MV::obj()("a", mI(1))("b", mS("x")), -1);
+#endif
+	TASG("Var('12345678')", Var y("12345678"); x = y, mS("12345678"), -1);
+	TASG("Var [1]", Var y; y << 1; x = y, MV::arr() << mI(1), -1);
+}
+static bool tasCase(int p, int t1, int t2, std::string& err, std::string& name) {
+	name = "target: " + PRS[p].name + "; target = " + TAS[t1].name + (t2 >= 0 ? "; target = " + TAS[t2].name : std::string());
+	World w;
+	PRS[p].build(w);
+	if (!same(*w.a, w.ma, err, "a") || !same(*w.b, w.mb, err, "b")) { err = "prior state: " + err; return false; }
+	if (w.tk) vf::add(W_TAS_ELEM_TARGET);
+	if (w.mb.t != MV::NONE) vf::add(W_TAS_SHARED_TARGET);
+	for (int s = 0; s < 2; s++) {
+		int t = s == 0 ? t1 : t2;
+		if (t < 0) break;
+		if ((TAS[t].slen == 7 || TAS[t].slen == 8) && w.t->_type != Var::STRING) vf::add(W_TAS_SS_EDGE);
+		TAS[t].assign(*w.t);
+		setTarget(w, TAS[t].model());
+		if (!same(*w.a, w.ma, err, "a") || !same(*w.b, w.mb, err, "b")) { err = fmt("after assignment %d: ", s + 1) + err; return false; }
+	}
+	return true;
+}
+
+// ---------------------------------------------------------------- main
+static std::vector<int> parseIdx(const std::string& s) { std::vector<int> r; size_t p = 0; while (p <= s.size()) { size_t q = s.find('.', p); if (q == std::string::npos) q = s.size(); r.push_back(atoi(s.substr(p, q - p).c_str())); p = q + 1; } return r; }
+static void runCtor(uint64_t i) { run_case(fmt("ctor:%d", (int)i), C_CTOR, [&](std::string& err, std::string& name) { name = CTS[i].name; return CTS[i].run(err); }); }
+static void runEq(uint64_t k) { int n = (int)VS.size(), i = (int)(k / n), j = (int)(k % n); run_case(fmt("eq:%d.%d", i, j), C_EQ, [&](std::string& err, std::string& name) { return eqCase(i, j, err, name); }); }
+static void runEqt(uint64_t k) { int n = (int)TCS.size(), i = (int)(k / n), j = (int)(k % n); run_case(fmt("eqt:%d.%d", i, j), C_EQT, [&](std::string& err, std::string& name) { return eqtCase(i, j, err, name); }); }
+static void runCln(uint64_t k) { int i = (int)(k / 2), d = (int)(k % 2); run_case(fmt("cln:%d.%d", i, d), C_CLN, [&](std::string& err, std::string& name) { return clnCase(i, d, err, name); }); }
+static void runTas(uint64_t k) { int T = (int)TAS.size(); int t2 = (int)(k % (T + 1)) - 1, t1 = (int)(k / (T + 1) % T), p = (int)(k / (T + 1) / T); run_case(fmt("tas:%d.%d.%d", p, t1, t2 + 1), C_TAS, [&](std::string& err, std::string& name) { return tasCase(p, t1, t2, err, name); }); }
+
 int main(int argc, char** argv) {
 	vf::init(argc, argv, "C04", "c04_var");
 	int cS = vf::counter("states"), cT = vf::counter("transitions"), cTr = vf::counter("traces");
 	W_STR_HEAP_SHORT = vf::counter("w.heap_represented_string_shorter_than_8"); W_TYPECHANGE = vf::counter("w.assign_type_changing_path"); W_SAMETYPE_FAST = vf::counter("w.assign_same_type_fast_path"); W_OWN_DESC = vf::counter("w.assign_own_descendant");
 	W_AUTOVIV = vf::counter("w.auto_vivification"); W_AUTORESIZE = vf::counter("w.index_auto_resize"); W_SHARED_MUT = vf::counter("w.mutation_of_shared_container"); W_CLONE = vf::counter("w.clone");
 	W_STR_INLINE_HEAP = vf::counter("w.strings_at_7_8_byte_boundary"); W_EXTEND = vf::counter("w.extend"); W_EQ_TRUE = vf::counter("w.equal_pairs_compared"); W_EQ_FALSE = vf::counter("w.unequal_pairs_compared"); W_SCALAR_OVER_SHARED = vf::counter("w.scalar_assigned_over_shared_container");
+	W_FP_STR = vf::counter("w.fast_path_heap_string_over_heap_string"); W_FP_ARR = vf::counter("w.fast_path_array_over_array"); W_FP_OBJ = vf::counter("w.fast_path_object_over_object");
+	W_OWN_SAME = vf::counter("w.own_descendant_same_type"); W_OWN_CHANGE = vf::counter("w.own_descendant_type_changing"); W_CLONE_MUT = vf::counter("w.one_side_of_a_held_clone_mutated");
+	W_EQ_XREP = vf::counter("w.equal_strings_in_different_representations"); W_ARR_REALLOC = vf::counter("w.unshared_array_grows_past_capacity"); W_OBJ_REALLOC = vf::counter("w.unshared_object_grows_past_capacity");
+	W_PRED_ARR = vf::counter("w.predicted_shared_growth_array"); W_PRED_OBJ = vf::counter("w.predicted_shared_growth_object"); W_PRED_ALIAS = vf::counter("w.predicted_autocreate_invalidates_source");
+	W_TYPED_OVER_HEAPSTR = vf::counter("w.typed_assignment_over_heap_string"); W_TYPED_OVER_CONTAINER = vf::counter("w.typed_assignment_over_container"); W_CSTR_HEAP_ARM = vf::counter("w.cstr_assignment_heap_arm"); W_CSTR_GROW = vf::counter("w.cstr_assignment_grows_heap_string");
+	W_HEAP_EMPTY = vf::counter("w.heap_represented_empty_string"); W_ALIAS_NOCREATE = vf::counter("w.own_sibling_assigned_to_existing_target"); W_ALIAS_CREATE_OK = vf::counter("w.own_sibling_assigned_to_created_target_in_place");
+	W_ALIAS_APPEND_FULL = vf::counter("w.own_element_appended_at_capacity"); W_ALIAS_EXTEND = vf::counter("w.extend_with_own_property"); W_ALIAS_EXTEND_OVERWRITES_SRC = vf::counter("w.extend_with_own_property_overwriting_it");
+	W_INDEX_HOLES = vf::counter("w.index_beyond_end_creates_holes"); W_OBJ_4KEYS = vf::counter("w.object_with_4_or_more_keys"); W_OBJ_INSERT_FRONT = vf::counter("w.property_inserted_before_existing_ones"); W_NEST_OWN = vf::counter("w.element_assigned_its_own_element");
+	W_CONV_NUM = vf::counter("w.number_read_in_every_numeric_type"); W_CONV_NUMSTR = vf::counter("w.digit_string_read_as_number");
+	C_CTOR = vf::counter("cases.ctor"); C_EQ = vf::counter("cases.eq"); C_EQT = vf::counter("cases.eqt"); C_TAS = vf::counter("cases.tas"); C_CLN = vf::counter("cases.cln");
+	W_EQ_NUM_XTYPE = vf::counter("w.eq_numerically_equal_cross_type_pairs"); W_EQ_BOOLS = vf::counter("w.eq_bool_pairs"); W_EQ_CONT_TRUE = vf::counter("w.eq_equal_container_pairs"); W_EQ_CONT_FALSE = vf::counter("w.eq_unequal_container_pairs");
+	W_TAS_SS_EDGE = vf::counter("w.tas_7_or_8_char_string_over_non_heap_string"); W_TAS_ELEM_TARGET = vf::counter("w.tas_target_inside_container"); W_TAS_SHARED_TARGET = vf::counter("w.tas_target_shared"); W_CTOR_BIG = vf::counter("w.ctor_integer_beyond_int_range"); W_CTOR_STR_EDGE = vf::counter("w.ctor_string_of_7_or_8_chars");
+	buildValues(); buildConsts(); buildCtors(); buildTas();
 	VarSys sys;
-	if (vf::opt.replay) { vf::parallel(1, [&](uint64_t) { vf::Bfs<VarSys>(sys, "var").replay(vf::opt.kase); }); return vf::finish(); }
+	if (vf::opt.replay) {
+		size_t p = vf::opt.kase.find(':');
+		std::string lbl = vf::opt.kase.substr(0, p); std::vector<int> ix = parseIdx(vf::opt.kase.substr(p + 1));
+		int T = (int)TAS.size(), nV = (int)VS.size(), nC = (int)TCS.size();
+		vf::parallel(1, [&](uint64_t) {
+			if (lbl == "var") vf::Bfs<VarSys>(sys, "var").replay(vf::opt.kase);
+			else if (lbl == "ctor" && ix.size() == 1 && ix[0] >= 0 && ix[0] < (int)CTS.size()) runCtor(ix[0]);
+			else if (lbl == "eq" && ix.size() == 2 && ix[0] >= 0 && ix[0] < nV && ix[1] >= 0 && ix[1] < nV) runEq((uint64_t)ix[0] * nV + ix[1]);
+			else if (lbl == "eqt" && ix.size() == 2 && ix[0] >= 0 && ix[0] < nV && ix[1] >= 0 && ix[1] < nC) runEqt((uint64_t)ix[0] * nC + ix[1]);
+			else if (lbl == "cln" && ix.size() == 2 && ix[0] >= 0 && ix[0] < nV && ix[1] >= 0 && ix[1] < 2) runCln((uint64_t)ix[0] * 2 + ix[1]);
+			else if (lbl == "tas" && ix.size() == 3 && ix[0] >= 0 && ix[0] < (int)PRS.size() && ix[1] >= 0 && ix[1] < T && ix[2] >= 0 && ix[2] <= T) runTas(((uint64_t)ix[0] * T + ix[1]) * (T + 1) + ix[2]);
+			else fprintf(stderr, "c04_var: cannot parse case '%s'\n", vf::opt.kase.c_str());
+		});
+		return vf::finish();
+	}
 	vf::Bfs<VarSys> b(sys, "var");
+	// pure input families (identical in both tiers)
+	vf::parallel(CTS.size(), runCtor, 8);
+	vf::parallel((uint64_t)VS.size() * VS.size(), runEq, 64);
+	vf::parallel((uint64_t)VS.size() * TCS.size(), runEqt, 64);
+	vf::parallel((uint64_t)VS.size() * 2, runCln, 8);
+	vf::parallel((uint64_t)PRS.size() * TAS.size() * (TAS.size() + 1), runTas, 512);
+	vf::setinfo("input_families", fmt("{\"ctor_cases\": %d, \"values\": %d, \"eq_pairs\": %d, \"typed_constants\": %d, \"eqt_cases\": %d, \"clone_cases\": %d, \"tas_priors\": %d, \"tas_assignments\": %d, \"tas_cases\": %llu}",
+		(int)CTS.size(), (int)VS.size(), (int)(VS.size() * VS.size()), (int)TCS.size(), (int)(VS.size() * TCS.size()), (int)VS.size() * 2, (int)PRS.size(), (int)TAS.size(), (unsigned long long)(PRS.size() * TAS.size() * (TAS.size() + 1))));
 	vf::BfsResult r = b.run(vf::opt.thorough() ? 5 : 4, 0);
 	vf::add(cS, r.states); vf::add(cT, r.transitions); vf::add(cTr, r.traces);
 	std::string pd; for (size_t i = 0; i < r.per_depth.size(); i++) pd += fmt(i ? ",%llu" : "%llu", (unsigned long long)r.per_depth[i]);
